@@ -1139,31 +1139,25 @@ fn getset_command(
         anyhow::bail!("Must specify either sample names or --prefix");
     };
 
-    // If output file specified, extract to file
-    // Otherwise, extract to stdout (via temp file for simplicity)
-    if let Some(output_path) = output {
-        // Extract each sample to the output file (append mode)
-        for sample_name in &samples_to_extract {
-            if verbosity > 0 {
-                eprintln!("Extracting sample: {sample_name}");
-            }
-            decompressor.write_sample_fasta(sample_name, &output_path)?;
+    // All requested samples go to ONE sink (the -o file or stdout) in request order. Each sample is
+    // rendered by write_sample_fasta into a scratch file (which that helper truncates) and appended;
+    // writing every sample straight to the same path kept only the last one.
+    let temp_path = std::env::temp_dir().join(format!("agc_extract_{}.fasta", std::process::id()));
+    let mut sink: Box<dyn Write> = match &output {
+        Some(output_path) => Box::new(std::fs::File::create(output_path)?),
+        None => Box::new(io::stdout()),
+    };
+    for sample_name in &samples_to_extract {
+        if verbosity > 0 {
+            eprintln!("Extracting sample: {sample_name}");
         }
-    } else {
-        // Extract to temp file then write to stdout
-        let temp_path =
-            std::env::temp_dir().join(format!("agc_extract_{}.fasta", std::process::id()));
-        for sample_name in &samples_to_extract {
-            if verbosity > 0 {
-                eprintln!("Extracting sample: {sample_name}");
-            }
-            decompressor.write_sample_fasta(sample_name, &temp_path)?;
-        }
-        // Write temp file to stdout
-        let contents = std::fs::read(&temp_path)?;
-        io::stdout().write_all(&contents)?;
-        std::fs::remove_file(&temp_path)?;
+        let rendered = decompressor
+            .write_sample_fasta(sample_name, &temp_path)
+            .and_then(|_| Ok(std::fs::read(&temp_path)?));
+        let _ = std::fs::remove_file(&temp_path);
+        sink.write_all(&rendered?)?;
     }
+    sink.flush()?;
 
     decompressor.close()?;
     Ok(())
